@@ -456,12 +456,14 @@ class NamedTupleAdapter(GenericCallAdapter):
         return (
             [],
             {
-                field: Argument(value=getattr(value, field))
-                for field in value._fields
-                if field not in value._field_defaults
-                or not is_default_value(
-                    value._field_defaults[field], getattr(value, field)
+                field: Argument(
+                    value=getattr(value, field),
+                    is_default=field in value._field_defaults
+                    and is_default_value(
+                        value._field_defaults[field], getattr(value, field)
+                    ),
                 )
+                for field in value._fields
             },
         )
 
